@@ -727,7 +727,7 @@ def d3_consolidate(ctx, idx):
                 incs.append((n, n.targets[0].id, n.value))
         if len(incs) != 1:
             if not incs:
-                r.violation(C + ': counter', 'failures are no longer counted inside the loop', lib.loc(fi, loop))
+                fl.absent(r, idx, C + ': counter', 'failures are no longer counted inside the loop', lib.loc(fi, loop))
                 return
             raise AnalysisError('consolidate_results: several accumulators in the loop')
         inc, cn, val = incs[0]
@@ -760,7 +760,7 @@ def d3_consolidate(ctx, idx):
             r.violation(C + ': loop', '`%s` leaves/skips the loop: later results are not examined' % short(e), lib.loc(fi, e))
         if len(rets) != 1:
             if not rets:
-                r.violation(C + ': threshold', 'the loop never returns a failing result: every response obtains the answer\'s credit',
+                fl.absent(r, idx, C + ': threshold', 'the loop never returns a failing result: every response obtains the answer\'s credit',
                             lib.loc(fi, loop))
                 return
             raise AnalysisError('consolidate_results: several returns inside the loop')
@@ -1066,11 +1066,11 @@ def d4_samples(ctx, idx):
                 want = 'var_samples' if kind in ('variables', 'varscope') else 'func_samples'
                 if want not in before.get(target, []):
                     if any(t == target for _, t in loads):
-                        r.violation(name + ': sample %s' % target, 'no `%s.update(%s[%s])` precedes the author\'s evaluation on every path '
+                        fl.absent(r, idx, name + ': sample %s' % target, 'no `%s.update(%s[%s])` precedes the author\'s evaluation on every path '
                                     'of an iteration: author and/or student are evaluated with the previous iteration\'s sample'
                                     % (target, want, lv), lib.loc(fi, loop))
                     else:
-                        r.violation(name + ': sample %s' % target, 'the %s of the current iteration are never loaded into %s'
+                        fl.absent(r, idx, name + ': sample %s' % target, 'the %s of the current iteration are never loaded into %s'
                                     % (want, target), lib.loc(fi, loop))
             # the author's evaluation precedes the student's (needed for "only deletions in between" to make sense)
             if not cfg.reaches(a_nodes, s_nodes, blocked=[fl.loop_head(cfg, loop)], after=True):
@@ -1108,7 +1108,7 @@ def d4_credit(ctx, idx):
                 r.undecided(name + ': credit scaling', 'no store to [\'grade_decimal\']; results are handed to `%s`' % short(others[0]),
                             lib.loc(fi, others[0]))
             else:
-                r.violation(name + ': credit scaling', "the comparer grades are no longer multiplied by answer['grade_decimal']: a "
+                fl.absent(r, idx, name + ': credit scaling', "the comparer grades are no longer multiplied by answer['grade_decimal']: a "
                             "matched partial-credit answer yields full credit per sample and failing partial results keep their "
                             "unscaled grade", lib.loc(fi, ccall), expected="result['grade_decimal'] *= answer['grade_decimal']")
         for n, tgt, val in stores:
@@ -1291,7 +1291,7 @@ def d5_tables(ctx, idx):
             missing = owners - set(seen.get(key, []))
             for o in sorted(missing):
                 if o == 'NumericalGrader' and key != 'tolerance':
-                    r.violation("NumericalGrader schema: '%s'" % key, 'NumericalGrader no longer overrides %s: it inherits the '
+                    fl.absent(r, idx, "NumericalGrader schema: '%s'" % key, 'NumericalGrader no longer overrides %s: it inherits the '
                                 'FormulaGrader option instead of the pinned value' % key, idx.cls(NGC).loc)
                 elif o == 'MathMixin':
                     r.undecided("MathMixin schema: '%s'" % key, 'entry vanished from math_config_options', idx.cls(MM).loc)
@@ -1301,9 +1301,59 @@ def d5_tables(ctx, idx):
             ext = [c for c in lib.calls_named(fi.node, 'extend') if c.args and nf.match('self.math_config_options', c.args[0]) is not None]
             r.check(bool(ext), q.split('.')[-1] + '.schema_config', 'extends math_config_options',
                     'the grader schema no longer includes math_config_options (tolerance/samples/failable_evals unvalidated)', fi.loc)
-        # PercentageString
+        # PercentageString: interpreted on model inputs when possible, structural rules otherwise
         fi = idx.func('mitxgraders.helpers.validatorfuncs.PercentageString')
         C = 'PercentageString'
+        if _percentage_string_model(r, idx, fi, C):
+            fi = None
+        _percentage_string_structural(r, idx, fi, C)
+        _nonneg_positive(r, idx)
+
+
+def _percentage_string_model(r, idx, fi, C):
+    cases = [('5%', True), (' 2.5% ', True), ('0%', True), ('-1%', False), ('nan%', False), ('abc%', False), ('%', False),
+             ('5', False), ('abc', False), (5, False), (0.5, False), (None, False)]
+    funcs = {n: f.node for n, f in fi.module.funcs.items()}
+    out = {}
+    try:
+        for v, _ in cases:
+            env = {fi.params[0]: v, '__module__': fi.module, '__funcs__': funcs}
+            try:
+                kind, got, stmt = mev.call(fi.node, env)
+                out[repr(v)] = ('return', got) if kind == 'return' and got is not None else ('none', None)
+            except mev.ModelRaise as e:
+                out[repr(v)] = ('raise', e.cls)
+    except mev.Unsupported:
+        return False
+
+    def verdict(construct, subset, ok_text):
+        bad = []
+        for v, accept in cases:
+            if repr(v) not in subset:
+                continue
+            kind, what = out[repr(v)]
+            if accept and kind != 'return':
+                bad.append('%r is refused (%s) although it is a valid non-negative percentage' % (v, what or 'returns None'))
+            elif not accept and kind == 'return':
+                bad.append('%r is accepted as a tolerance (validated value %r)' % (v, what))
+            elif not accept and kind == 'none':
+                bad.append('%r falls through: None is returned as the validated tolerance' % (v,))
+            elif not accept and what != 'Invalid':
+                bad.append('%r raises %s, which voluptuous does not treat as a validation failure' % (v, what))
+        if bad:
+            r.violation(construct, '; '.join(bad[:2]), fi.loc)
+        else:
+            r.ok(construct, ok_text, fi.loc)
+    verdict(C + ': sign', {"'5%'", "' 2.5% '", "'0%'", "'-1%'", "'nan%'"}, "5%, 2.5%, 0% accepted; -1% and nan% raise Invalid (model run)")
+    verdict(C + ': form', {"'abc%'", "'%'", "'5'", "'abc'"}, "strings without a number and a trailing % raise Invalid (model run)")
+    verdict(C + ': refusal', {'5', '0.5', 'None'}, 'non-strings raise Invalid (model run)')
+    return True
+
+
+def _percentage_string_structural(r, idx, fi, C):
+    if fi is None:
+        return
+    if True:
         neg = []
         for n in walk_own(fi.node):
             if isinstance(n, ast.If):
@@ -1312,7 +1362,7 @@ def d5_tables(ctx, idx):
                         any(isinstance(s, ast.Raise) for s in n.body):
                     neg.append((n, t))
         if not neg:
-            r.violation(C + ': sign', "negative percentages are no longer refused: with tolerance '-1%' nothing is ever within "
+            fl.absent(r, idx, C + ': sign', "negative percentages are no longer refused: with tolerance '-1%' nothing is ever within "
                         'tolerance', fi.loc, expected='if percent < 0: raise Invalid')
         for n, t in neg:
             env = lib.local_env(fi.node)
@@ -1340,6 +1390,10 @@ def d5_tables(ctx, idx):
         tail = strip_tail_raise(fi)
         r.check(tail, C + ': refusal', 'every other value raises Invalid', 'values that are not percentage strings fall through '
                 '(None is returned as the validated tolerance)', fi.loc)
+
+
+def _nonneg_positive(r, idx):
+    if True:
         # NonNegative / Positive
         for fn, pats, bad in (('NonNegative', ["All(_T, Range(0, float('inf')))", "All(_T, Range(min=0))", "All(_T, Range(0, None))"],
                                'negative'),):
@@ -1502,6 +1556,16 @@ BENIGN = [
            "        failures = [result for result in results if result['ok'] is not True]\n"
            "        if failures and (len(results) == 1 or len(failures) > failable_evals):\n"
            "            return failures[0 if len(results) == 1 else failable_evals]\n"),
+    Benign('infinity-test-any-form', MF, "    inf = float('inf')\n    if isinstance(x, Number):\n        if x == inf or y == inf or x == -inf or y == -inf:\n            return x == y\n",
+           "    if isinstance(x, Number) and any(v == b for b in (float('inf'), -float('inf')) for v in (x, y)):\n        return x == y\n"),
+    Benign('tolerance-helper-extracted', MF, "    if isinstance(tolerance, str):\n        tolerance = np.linalg.norm(x) * percentage_as_number(tolerance)\n\n    difference = x - y\n\n    return np.linalg.norm(difference) <= tolerance\n\ndef is_nearly_zero",
+           "    max_distance = _as_absolute_tolerance(tolerance, x)\n    return np.linalg.norm(x - y) <= max_distance\n\ndef _as_absolute_tolerance(tolerance, reference):\n    if not isinstance(tolerance, str):\n        return tolerance\n    return np.linalg.norm(reference) * percentage_as_number(tolerance)\n\ndef is_nearly_zero"),
+    Benign('compare-evaluations-comprehension', MH, "        results = []\n        if isinstance(comparer, CorrelatedComparer):\n            result = comparer(compare_params_evals, student_evals, utils)\n            results.append(ItemGrader.standardize_cfn_return(result))\n        else:\n            for compare_params_eval, student_eval in zip(compare_params_evals, student_evals):\n                result = comparer(compare_params_eval, student_eval, utils)\n                results.append(ItemGrader.standardize_cfn_return(result))\n",
+           "        if isinstance(comparer, CorrelatedComparer):\n            comparer_inputs = [(compare_params_evals, student_evals)]\n        else:\n            comparer_inputs = zip(compare_params_evals, student_evals)\n        standardize = ItemGrader.standardize_cfn_return\n        results = [standardize(comparer(params, student, utils)) for params, student in comparer_inputs]\n"),
+    Benign('consolidate-lazy-generator', MH, _CONS_LOOP,
+           "        failed_results = (result for result in results if result['ok'] != True)\n        for num_failures, failed_result in enumerate(failed_results, start=1):\n            if len(results) == 1 or num_failures > failable_evals:\n                return failed_result\n"),
+    Benign('percentage-string-helper', VF, "    if isinstance(value, str):\n        work = value.strip()\n        if work.endswith(\"%\"):\n            try:\n                percent = float(work[:-1])\n                # (written this way so that 'nan%' is refused too: nan < 0 is False)\n                if not percent >= 0:\n                    raise Invalid(\"Cannot have a negative percentage\")\n                return \"{percent}%\".format(percent=percent)\n            except Invalid:\n                raise\n            except Exception:\n                pass\n\n    raise Invalid(\"Not a valid percentage string\")\n",
+           "    percent = _percentage_value(value.strip()) if isinstance(value, str) else None\n    if percent is None:\n        raise Invalid(\"Not a valid percentage string\")\n    if not percent >= 0:\n        raise Invalid(\"Cannot have a negative percentage\")\n    return \"{percent}%\".format(percent=percent)\n\ndef _percentage_value(text):\n    if not text.endswith(\"%\"):\n        return None\n    try:\n        return float(text[:-1])\n    except Exception:\n        return None\n"),
     Benign('tolerance-any-order', MH, "        Required('tolerance', default='0.01%'): Any(PercentageString, NonNegative(Number)),",
            "        Required('tolerance', default='0.01%'): Any(NonNegative(Number), PercentageString),"),
 ]
